@@ -398,7 +398,7 @@ let handle (toks : string list) : string =
       let step t = (match String.split_on_char ':' t with
         | ["o0"] -> SOpen false | ["o1"] -> SOpen true | ["r1"] -> SRemove true | ["r0"] -> SRemove false | ["l0"] -> SSetLen false | ["l1"] -> SSetLen true
         | ["w0"; n] -> SWrite (false, nint n) | ["w1"; n] -> SWrite (true, nint n) | ["W0"] -> SWriteLast false | ["W1"] -> SWriteLast true
-        | ["m0"] -> SMeta false | ["m1"] -> SMeta true | ["R"] -> SRename | ["U"] -> SUtime | _ -> failwith "cp step") in
+        | ["m0"] -> SMeta false | ["m1"] -> SMeta true | ["R"] -> SRename | ["U"] -> SUtime | ["T"] -> SUtimeT | _ -> failwith "cp step") in
       let p = if steps = "-" then [] else List.map step (String.split_on_char ',' steps) in
       let s0 = { cs_dest = d0; cs_temp = CAbsent } in
       let show = function CAbsent -> "a" | CFile (ct, k, sz, mt) -> Printf.sprintf "%d:%d:%d:%d" (int_of_n ct) (if k then 1 else 0) (int_of_n sz) (int_of_z mt) in
